@@ -67,7 +67,8 @@ NewTree(e, P) ==
     [] e.act = "cond" -> [k |-> "tst", sf |-> 0, c |-> P[e.c], l |-> P[e.i], r |-> P[e.j], w |-> Width(P[e.i])]
     [] e.act = "ext" -> [k |-> "xt", sf |-> 0, sg |-> e.sg, x |-> P[e.i], w |-> e.w]
     [] e.act \in {"simplify", "pickle", "mapw", "setsf"} -> P[e.i]
-    [] e.act = "mset" -> P[e.j]
+    [] e.act = "mset" -> IF e.n = Width(P[e.j]) THEN P[e.j]
+                         ELSE [k |-> "slc", sf |-> 0, x |-> P[e.j], pos |-> e.lo, w |-> e.n]
     [] e.act = "mget" -> mreg
     [] e.act = "subst" -> Subst(P[e.i], "a", P[e.j])
 
@@ -153,7 +154,7 @@ Step ==
           /\ verdict' = CheckAllLive(verdict, e.live, 1, pool, 0)
      ELSE LET t == NewTree(e, pool) P == Append(pool, t) newh == Len(P) IN
           /\ pool' = P
-          /\ mreg' = IF e.act = "mset" THEN SetSlice(mreg, e.pos, pool[e.j]) ELSE mreg
+          /\ mreg' = IF e.act = "mset" THEN SetSlice(mreg, e.pos, t) ELSE mreg
           /\ verdict' =
                IF e.raised # ""
                THEN (IF AlwaysUnknown(t) THEN verdict ELSE Fail(verdict, "C01", "Total", newh, 0))
